@@ -11,6 +11,8 @@
   `gcMarkFrom` (the mark phase from bits that are already set — the `marked` field survives when an exception leaves `GC_Mark`),
   `release` (the release loop of `GC_Sweep`: destructors, `Box_Del` → `del` → `GC_Rem_Ptr`), `collectAll`, and `GState.run`
   (histories whose state includes the mark bits, with collections that are left by an exception and registry rehashes).
+  Since fix d8f0c4f `GC_Mark` begins with `GC_Unmark` (every bit cleared): `clearFirstNow` / `startBits` / `collectWhole`; the
+  collector before the fix is the explicit OLD variant `clearFirst := false`.
 
   Object representations (what the collector sees when it is handed a pointer to the object):
     raw  ty ws      a struct whose `size(type)/8` words are `ws` (plain structs, Ref, Box, Int, String, …)
@@ -18,7 +20,12 @@
                     Tree hand key, value, key, value, …): the elements live inside the container's own malloc block,
                     have their own header and are not registered
     tup  ty items   a type whose Mark instance hands stored *pointers* (heap Tuple: `items[i]` up to Terminal)
-    thr  ty tls     Thread: its Mark instance calls `mark(t->tls, gc, f)`
+    thr  ty tls     Thread: its Mark instance calls `mark(t->tls, gc, f)` for EVERY Thread object the marker meets — `viaMark` is the
+                    call on `current(Thread)` (the thread-local-storage phase of `GC_Mark`), `fields` is `GC_Recurse` on a Thread
+                    object found in the registry, which is never `current(Thread)` of the marking thread (the main thread's is
+                    `new_raw`, a worker's was allocated by — and registered with the collector of — the thread that created it):
+                    objects stored with `set(t, key, obj)` in such a Thread object are reachable through it.  The repair 80c795e,
+                    which guarded the call by `self is current(Thread)`, was withdrawn (0a0ad73): variant `Cfg.threadGuarded`.
 -/
 import CelloGen.GcMark
 
@@ -52,6 +59,9 @@ structure Cfg where
   tlsCallback : Bool
   /-- the conservative scan runs while `i+8 <= size` (true) or `i+8 < size` (false) -/
   scanInclusive : Bool
+  /-- `Thread_Mark` walks the table of EVERY Thread object the marker reaches (true: the unguarded `mark(t->tls, gc, f)` of the
+      source as it is) or only of the marking thread's own (false: `if (self is current(Thread)) { … }`, the withdrawn repair 80c795e) -/
+  foreignTls : Bool
 deriving Repr
 
 /-- probe types of harness/h_gcmark.c that declare their own Mark instance (a user-defined container) -/
@@ -67,7 +77,11 @@ def Cfg.current : Cfg :=
     mark := CelloGen.GcMark.markTypes.filter CelloGen.GcMark.markVisitsAll ++ userMarkTypes
     guarded := CelloGen.GcMark.callbackGuarded
     tlsCallback := CelloGen.GcMark.tlsViaCallback
-    scanInclusive := CelloGen.GcMark.scanInclusive }
+    scanInclusive := CelloGen.GcMark.scanInclusive
+    foreignTls := !CelloGen.GcMark.threadMarkOwnOnly }
+
+/-- variant: the collector with the WITHDRAWN repair 80c795e (`Thread_Mark` guarded by `self is current(Thread)`) -/
+def Cfg.threadGuarded : Cfg := { Cfg.current with foreignTls := false }
 
 def Cfg.isLeaf (c : Cfg) (ty : String) : Bool := c.leaf.contains ty
 def Cfg.hasMark (c : Cfg) (ty : String) : Bool := c.mark.contains ty
@@ -83,8 +97,10 @@ def fields (c : Cfg) : Obj → List Word
   | .raw ty ws => if c.isLeaf ty then [] else if c.hasMark ty then [] else scanWords c ws
   | .cont ty es => if c.isLeaf ty then [] else if c.hasMark ty then fieldsL c es else []
   | .tup ty items => if c.isLeaf ty then [] else if c.hasMark ty then items else []
-  | .thr ty tls => if c.isLeaf ty then [] else if c.hasMark ty then viaMark c tls else []
-/-- `mark(obj, gc, GC_Mark_And_Recurse)`: the type's Mark instance, if it has one (no leaf test on this path) -/
+  | .thr ty tls => if c.isLeaf ty then [] else if c.hasMark ty then (if c.foreignTls then viaMark c tls else []) else []
+/-- `mark(obj, gc, GC_Mark_And_Recurse)`: the type's Mark instance, if it has one (no leaf test on this path); called on
+    `current(Thread)` by the thread-local-storage phase, so for a Thread object `self is current(Thread)` holds here (which
+    matters only in the variant `Cfg.threadGuarded`) -/
 def viaMark (c : Cfg) : Obj → List Word
   | .raw _ _ => []
   | .cont ty es => if c.hasMark ty then fieldsL c es else []
@@ -419,8 +435,9 @@ inductive Reachable (c : Cfg) (h : Heap) (roots : List Word) : Addr → Prop
   loop of `GC_Sweep`, and a new entry starts with it clear (`GC_Set_Ptr`: `{ ptr, ihash, root, 0 }` — also on every
   re-insertion by `GC_Rehash`).  `GC_Set` runs `GC_Mark(gc); GC_Sweep(gc);`: when an exception leaves the mark phase
   (a Mark instance that throws; `type_of` on a block freed by hand, KF-C01-dangling-tuple-item) the sweep does not run and
-  the bits set so far STAY.  The next mark phase starts from them: the root loop skips marked entries and `GC_Mark_Item`
-  traces an entry only when it finds it unmarked. -/
+  the bits set so far STAY.  Before fix d8f0c4f the next mark phase started from them: the root loop skips marked entries and
+  `GC_Mark_Item` traces an entry only when it finds it unmarked (`gcMarkFrom` with the stale bits).  Since the fix `GC_Mark` begins
+  with `GC_Unmark(gc)` — every bit cleared — (and so does `GC_Del` before its sweep): `startBits true`, whatever bits were set. -/
 
 section marks
 variable {σ : Type} (S : MarkSet σ)
@@ -437,6 +454,14 @@ def gcMarkFrom (c : Cfg) (h : Heap) (thread : Obj) (stack : List Word) (m0 : σ)
 /-- `GC_Mark(gc); GC_Sweep(gc);` on a registry whose bits `m0` are already set (mark and unlink phases of the sweep) -/
 def collectFrom (c : Cfg) (h : Heap) (thread : Obj) (stack : List Word) (m0 : σ) : Heap × List Addr :=
   sweep S h (gcMarkFrom S c h thread stack m0)
+
+/-- does `GC_Mark` of the source as it is now clear every mark bit before its first phase?  (`GC_Unmark`, fix d8f0c4f;
+    re-extracted on every run) -/
+def clearFirstNow : Bool := CelloGen.GcMark.markClearsFirst
+
+/-- the bits the three phases of `GC_Mark` start from when the bits `m0` are set at its entry: none after `GC_Unmark`
+    (`clearFirst = true`, the source as it is), `m0` itself in the OLD variant (`clearFirst = false`, before fix d8f0c4f) -/
+def startBits (clearFirst : Bool) (m0 : σ) : σ := if clearFirst then S.empty else m0
 
 end marks
 
@@ -458,7 +483,10 @@ def markEvents (c : Cfg) (h : Heap) (thread : Obj) (stack : List Word) (stale : 
 mutual
 /-- the pointers the destructor of an object hands to `del` -/
 def owns : Obj → List Word
-  | .raw ty ws => if ty = "Box" then (ws.take 1).filter (· ≠ 0) else []
+  | .raw ty ws =>
+    if ty = "Box" then (ws.take 1).filter (· ≠ 0)
+    else if ty = "ProbeD" then [0]      -- a user destructor that deletes an optional member which is NULL: `del(NULL)`
+    else []
   | .cont _ es => ownsL es
   | .tup _ _ => []
   | .thr _ _ => []
@@ -484,12 +512,24 @@ def strike (x : Addr) : List (Option Addr) → List (Option Addr)
   | [] => []
   | o :: p => if o = some x then none :: p else o :: strike x p
 
-/-- **`GC_Rem_Ptr(gc, v)`** (what `del(v)` comes to): on the free list → struck and finalised; in the registry → erased and
+/-- `GC_Rem_Ptr(gc, v)` after its early-out: on the free list → struck and finalised; in the registry → erased and
     finalised; otherwise nothing.  `fin` is `dealloc(destruct(·))`. -/
-def remPtr (fin : RState → Addr → RState) (st : RState) (v : Word) : RState :=
+def remPtrBody (fin : RState → Addr → RState) (st : RState) (v : Word) : RState :=
   if st.pending.contains (some v) then fin { st with pending := strike v st.pending } v
   else if (st.heap.lookup v).isSome then fin { st with heap := st.heap.remove v } v
   else st
+
+/-- **`GC_Rem_Ptr(gc, v)`** (what `del(v)` comes to) as it is now: `if (gc->nslots is 0 or ptr is NULL) { return; }` (fix d3e4e44:
+    `del(NULL)` is a no-op everywhere, also from a destructor during a sweep), then the free list, then the registry. -/
+def remPtr (fin : RState → Addr → RState) (st : RState) (v : Word) : RState :=
+  if v = 0 then st else remPtrBody fin st v
+
+/-- OLD variant: `GC_Rem_Ptr` before fix d3e4e44 (early-out `gc->nslots is 0` only).  The free-list loop compares
+    `gc->freelist[i] is ptr`, and a slot that was struck (or whose item the release loop is finalising right now) holds NULL:
+    `del(NULL)` from a destructor during a sweep matched it and ran `dealloc(destruct(NULL))` — recorded here as the
+    finalisation of address 0 (in C: a NULL dereference in `destruct`). -/
+def remPtrPre (fin : RState → Addr → RState) (st : RState) (v : Word) : RState :=
+  if v = 0 then (if st.pending.contains none then fin st 0 else st) else remPtrBody fin st v
 
 /-- **`dealloc(destruct(a))`**: the destructor `del`s what the object owns (contents as they were when the sweep began: `h0`).
     `fuel` bounds the nesting of destructors; every nested call is preceded by the removal of one item from the free list or
@@ -524,6 +564,12 @@ def collectAll {σ : Type} (S : MarkSet σ) (c : Cfg) (h : Heap) (thread : Obj) 
   let r := collectFrom S c h thread stack m0
   let st := release h r.1 r.2
   { heap := st.heap, pending := r.2, finalised := st.finalised, exhausted := st.exhausted }
+
+/-- **`GC_Mark(gc); GC_Sweep(gc);` as the source has it** when the bits `m0` are set at its entry: `GC_Unmark` (iff `clearFirst`),
+    the three phases, the sweep including its release loop -/
+def collectWhole {σ : Type} (S : MarkSet σ) (c : Cfg) (clearFirst : Bool) (h : Heap) (thread : Obj) (stack : List Word) (m0 : σ) :
+    Collected :=
+  collectAll S c h thread stack (startBits S clearFirst m0)
 
 /-- does an entry that the sweep (with the final bits `m`) puts on the free list own an entry that stays registered?
     (a garbage Box — or a garbage container with an embedded Box — whose target is marked or root-registered) -/
@@ -568,8 +614,8 @@ structure GEvent where
 
 def GState.hstate (s : GState) : HState := { heap := s.heap, thread := s.thread, stack := s.stack }
 
-/-- `clearFirst`: does `GC_Mark` clear every mark bit before it starts?  (CelloGen.GcMark.markClearsFirst for the source as
-    it is; `true` is the proposed repair) -/
+/-- `clearFirst`: does `GC_Mark` clear every mark bit before it starts?  (`clearFirstNow` = CelloGen.GcMark.markClearsFirst for the
+    source as it is: `true` since fix d8f0c4f; `false` is the explicit OLD variant) -/
 def GState.step {σ : Type} (S : MarkSet σ) (c : Cfg) (clearFirst : Bool) (s : GState) : GOp → GState × Option GEvent
   | .base .collect =>
     let started := if clearFirst then [] else s.stale
